@@ -702,9 +702,11 @@ impl<'a> P<'a> {
         }
         let text: String = self.s[st..self.pos].iter().collect();
         let value = parse_num_value(&text);
+        // zone U2 for literals: integer syntax (no fraction, no exponent) beyond the I-JSON range
+        // - RFC 9535 2.1 is read either way for comparison literals - and non-finite values
         let exact = match value {
             NumVal::Int(i) => i.unsigned_abs() <= MAX_INT as u64,
-            NumVal::Float(f) => f.is_finite() && f.abs() <= MAX_INT as f64,
+            NumVal::Float(f) => f.is_finite() && (fe || f.abs() <= MAX_INT as f64),
         };
         if !exact {
             self.info.u2 = true;
